@@ -119,6 +119,7 @@ class VUdp(asyncio.DatagramTransport):
         self.protocol = protocol
         self.port = port
         self.reuse_port = reuse_port      # SO_REUSEPORT: other sockets with the same option may bind the port as well
+        self.host = "0.0.0.0"             # local address the socket is bound to
         self.closing = False
         self.released = False
 
@@ -191,6 +192,8 @@ class VNet:
             ep = group[VNet.nsrc % len(group)]       # the kernel hands each datagram to ONE of the sockets sharing the port
         if ep is None or ep.closing:
             return False
+        if ep.host not in ("0.0.0.0", "", None):
+            return False                              # device broadcasts reach sockets bound to the wildcard address only
         loop.call_soon(self._deliver, ep, data, self.SOURCES[(VNet.nsrc * 7 + VNet.nsrc // 5) % len(self.SOURCES)])
         return True
 
@@ -233,6 +236,7 @@ class VLoop(asyncio.SelectorEventLoop):
             raise OSError(98, f"error while attempting to bind on address {local_addr!r}: address already in use")
         protocol = protocol_factory()
         ep = VUdp(self.net, self, protocol, port, reuse)
+        ep.host = local_addr[0]
         self.net.udp[port] = ep
         if reuse:
             self.net.shared.setdefault(port, []).append(ep)
